@@ -73,6 +73,22 @@ def _steps(text, name, fns, depth=0, seen=()):
             checked = re.match(r"\s*(?:\.expect\(|\.unwrap\(\)|\?|\.unwrap_or_else\(\s*\|[^|]*\|\s*panic!)", tail) is not None
             stmt_start = max(body.rfind(";", 0, pos), body.rfind("{", 0, pos), body.rfind("}", 0, pos))
             ignored = re.match(r"\s*let\s+_\s*=", body[stmt_start + 1:pos]) is not None
+            # `if let Err(e) = w.flush() { panic!(..) }` / `match w.flush() { .. Err(e) => panic!(..) .. }`: looked at as well
+            before = body[stmt_start + 1:pos]
+            if not checked and re.match(r"\s*(?:if\s+let\s+Err\s*\([^)]*\)\s*=|match)\s*[\w.]*$", before):
+                blk = re.match(r"\s*\{", tail)
+                if blk:
+                    d, k = 0, m.end() + blk.end() - 1
+                    for k in range(m.end() + blk.end() - 1, len(body)):
+                        d += body[k] == "{"
+                        d -= body[k] == "}"
+                        if d == 0:
+                            break
+                    inner = body[m.end():k]
+                    if before.lstrip().startswith("if"):
+                        checked = re.search(r"\bpanic!|\breturn\s+Err\b|process::exit\(|\bunreachable!", inner) is not None
+                    else:
+                        checked = re.search(r"Err\s*\([^)]*\)\s*=>\s*\{?\s*(?:panic!|return\s+Err\b|std::process::exit\(|process::exit\()", inner) is not None
             sub = ["flush_checked" if (checked and not ignored) else "flush_unchecked"]
         else:
             sub = [ename]
@@ -85,8 +101,12 @@ def _steps(text, name, fns, depth=0, seen=()):
 
 def _inputs(body, what):
     """how the lexicon paths reach read_lexicon: the `for` loop around the call"""
+    body = re.sub(r"\s*\n\s*\.", ".", body)
+    # a `for` loop, or the same traversal as `<inputs>.for_each(|path| { .. })` (front to back, every element once)
     loops = list(re.finditer(r"\bfor\s+(%s)\s+in\s+([^{]+?)\s*\{" % ID, body))
+    loops += list(re.finditer(r"(?<![\w.])()((?:&\s*)?%s(?:\.%s|\.iter\(\))*)\.for_each\(\s*(?:move\s*)?\|\s*(%s)\s*\|\s*\{" % (ID, ID, ID), body))
     for lp in loops:
+        var = lp.group(1) or lp.group(3)
         seg = body[lp.end():]
         d, i = 1, 0
         while i < len(seg) and d:
@@ -97,9 +117,53 @@ def _inputs(body, what):
         m = re.search(r"\.read_lexicon\(\s*([^()]*(?:\(\))?)\s*\)", blk)
         if m:
             arg = re.sub(r"\s+", "", m.group(1))
-            uses_var = re.fullmatch(r"&?%s(?:\.as_path\(\)|\.as_ref\(\))?" % re.escape(lp.group(1)), arg) is not None
+            uses_var = re.fullmatch(r"&?%s(?:\.as_path\(\)|\.as_ref\(\))?" % re.escape(var), arg) is not None
             return re.sub(r"\s+", "", lp.group(2)), uses_var
     raise F.FactError("%s: no `for <path> in <inputs> { .. read_lexicon(<path>) .. }` loop" % what)
+
+
+def _split_args(s):
+    out, d, cur = [], 0, ""
+    for c in s:
+        if c in "([{<":
+            d += 1
+        elif c in ")]}>":
+            d -= 1
+        if c == "," and d == 0:
+            out.append(cur.strip())
+            cur = ""
+        else:
+            cur += c
+    if cur.strip():
+        out.append(cur.strip())
+    return out
+
+
+def _through_parameter(text, helper, expr, reach):
+    """the loop sits in a helper and iterates one of its (shared-reference) parameters: the expression the caller passes"""
+    m = re.fullmatch(r"&?(%s)(\.iter\(\))?" % ID, expr)
+    sig = re.search(r"\bfn\s+%s\s*(?:<[^>{;]*>)?\s*\(([^{;]*?)\)\s*(?:->[^{;]*)?(?:where[^{;]*)?\{" % re.escape(helper), text, flags=re.S)
+    if not m or not sig:
+        return expr
+    params = [p for p in _split_args(sig.group(1)) if not re.fullmatch(r"&?\s*(?:'\w+\s+)?(?:mut\s+)?self", p)]
+    idx = [k for k, p in enumerate(params) if re.match(r"%s\s*:\s*&(?!\s*mut\b)" % re.escape(m.group(1)), p)]
+    if len(idx) != 1 or len(re.findall(r"\b%s\b" % re.escape(m.group(1)), F.fn_body(text, helper, BUILD))) != 1:
+        return expr
+    calls = []
+    for f in reach:
+        if f == helper:
+            continue
+        for c in re.finditer(r"(?<![\w])%s\s*\(" % re.escape(helper), F.fn_body(text, f, BUILD)):
+            b = F.fn_body(text, f, BUILD)
+            e = F._close(b, c.end() - 1)
+            if e > 0:
+                calls.append(_split_args(b[c.end():e - 1]))
+    if len(calls) != 1 or len(calls[0]) != len(params):
+        return expr
+    arg = re.sub(r"\s+", "", calls[0][idx[0]])
+    if not re.fullmatch(r"&(%s(?:\.%s)*)" % (ID, ID), arg):
+        return expr
+    return arg[1:] + ".iter()" if m.group(2) else arg
 
 
 def gen():
@@ -122,6 +186,10 @@ def gen():
         if found is None:
             raise F.FactError("%s: no `for <path> in <inputs> { .. read_lexicon(<path>) .. }` loop" % fn_)
         src_expr, direct = found
+        src_expr = _through_parameter(t, f, src_expr, reach)
+        mref = re.fullmatch(r"&(%s(?:\.%s)*)" % (ID, ID), src_expr)
+        if mref:
+            src_expr = mref.group(1) + ".iter()"  # `for x in &v` is `for x in v.iter()`
         mentions = sum(len(re.findall(r"\binputs\b", F.fn_body(t, f, BUILD))) for f in reach)
         out.append("Definition %s_inputs_from : string := %s.\nDefinition %s_path_is_loop_variable : bool := %s.\nDefinition %s_inputs_mentions : N := %s.\n" %
                    (tag, q(src_expr), tag, "true" if direct else "false", tag, F.coq_int(mentions)))
